@@ -492,6 +492,10 @@ pub struct AuditVmState {
     pub current_upvalues: Vec<usize>,
     /// pointer values held by the layout snapshots in globals_by_index_cache
     pub globals_cache: Vec<usize>,
+    /// pointer values held in live manual-heap buffers (read from the allocation table)
+    pub manual: Vec<usize>,
+    /// freed manual buffers that still hold a pointer value (must be 0: free clears the data)
+    pub manual_freed_dirty: usize,
 }
 
 impl crate::vm::VM {
@@ -525,6 +529,8 @@ impl crate::vm::VM {
             open_upvalues: self.open_upvalues.iter().map(|u| u.index()).collect(),
             current_upvalues: self.current_upvalues.iter().map(|u| u.index()).collect(),
             globals_cache,
+            manual: self.manual_heap.verif_live_ptrs(),
+            manual_freed_dirty: self.manual_heap.verif_buffer_counts().1,
         }
     }
 }
